@@ -9,6 +9,58 @@ props = ["C%02d" % i for i in range(1, 21)]
 ids = args or sorted(d for d in os.listdir(os.path.join(ROOT, "seeded")) if re.match(r"C\d\d[a-z]$", d))
 assert subprocess.run(["git", "-C", "/repo", "status", "--porcelain"], capture_output=True, text=True).stdout.strip() == "", "/repo not clean"
 rows = []
+scratch_n = 0
+for a_ in sys.argv[1:]:
+    if a_.startswith("--scratch="):
+        scratch_n = int(a_.split("=")[1])
+
+
+def one_scratch(sid):
+    """the same in a scratch copy of /repo's HEAD (VERIF_REPO), so that several seeds can be run at the same time"""
+    import shutil, hashlib, glob
+    d = os.path.join(ROOT, "seeded", sid)
+    meta = json.load(open(os.path.join(d, "meta.json")))
+    own = meta["property"]
+    root = "/tmp/ckc-seedrun-%d/%s" % (os.getppid(), sid)
+    shutil.rmtree(root, ignore_errors=True)
+    os.makedirs(root)
+    subprocess.run("git -C /repo archive HEAD | tar -x -C %s" % root, shell=True, check=True)
+    r = subprocess.run(["git", "apply", "--unsafe-paths", "--directory=" + root, os.path.join(d, "patch.diff")], cwd="/", capture_output=True, text=True)
+    if r.returncode != 0:
+        r = subprocess.run(["patch", "-s", "-p1", "-d", root, "-i", os.path.join(d, "patch.diff")], capture_output=True, text=True)
+    if r.returncode != 0:
+        shutil.rmtree(root, ignore_errors=True)
+        return sid, own, None
+    det = {}
+    env = dict(os.environ, VERIF_REPO=root, CKC_EVIDENCE_DIR=os.path.join(root, "_ev"))
+    for p in [own] + ([q for q in props if q != own] if allc else []):
+        o = subprocess.run([os.path.join(ROOT, "check"), p], cwd=ROOT, capture_output=True, text=True, env=env)
+        rules = re.findall(r"rule=(\S+) instance=(.*)", o.stdout)
+        unc_only = bool(rules) and all(("UNCERTIFIED" in b_) or ("UNCERTIFIED" in o.stdout.split("rule=%s instance=%s" % (a_, b_), 1)[1].split("\n", 2)[1]) for a_, b_ in rules)
+        det[p] = {"rc": o.returncode, "rules": sorted({a_ for a_, b_ in rules})[:6], "via_uncertified_only": unc_only}
+    shutil.rmtree(root, ignore_errors=True)
+    h = hashlib.sha256(root.encode()).hexdigest()[:8]
+    for d_ in glob.glob(os.path.join(ROOT, ".cache", "target-*-%s" % h)):
+        shutil.rmtree(d_, ignore_errors=True)
+    return sid, own, det
+
+
+if scratch_n:
+    from multiprocessing import Pool
+    with Pool(scratch_n) as pool:
+        for sid, own, det in pool.imap(one_scratch, ids):
+            if det is None:
+                rows.append((sid, own, "PATCH DOES NOT APPLY", "", ""))
+                continue
+            d = os.path.join(ROOT, "seeded", sid)
+            meta = json.load(open(os.path.join(d, "meta.json")))
+            meta["detection"] = det
+            json.dump(meta, open(os.path.join(d, "meta.json"), "w"), indent=1, ensure_ascii=False)
+            caught = det[own]["rc"] == 1
+            others = [p for p in det if p != own and det[p]["rc"] == 1]
+            rows.append((sid, own, "caught" if caught else "MISSED", ", ".join(det[own]["rules"][:3]) + (" (fail-closed: unsupported construct)" if det[own]["via_uncertified_only"] else ""), ", ".join(others)))
+            print(rows[-1], flush=True)
+    ids = []
 for sid in ids:
     d = os.path.join(ROOT, "seeded", sid)
     meta = json.load(open(os.path.join(d, "meta.json")))
@@ -43,8 +95,11 @@ for sid in ids:
     others = [p for p in det if p != own and det[p]["rc"] == 1]
     rows.append((sid, own, "caught" if caught else "MISSED", ", ".join(det[own]["rules"][:3]) + (" (fail-closed: unsupported construct)" if det[own]["via_uncertified_only"] else ""), ", ".join(others)))
     print(rows[-1], flush=True)
+if args:
+    print("(subset run: seeded/RESULTS.md left as it is)")
+    raise SystemExit(0)
 with open(os.path.join(ROOT, "seeded", "RESULTS.md"), "w") as fh:
-    fh.write("# Seeded changes vs checks\n\nEach change was written by an independent sub-agent from the property text alone, confirmed by me\n(compiles, pinned suite green, demonstration fails with / passes without), then applied to /repo, checked, and undone.\n\n")
+    fh.write("# Seeded changes vs checks\n\nEach change was written by an independent sub-agent from the property text alone, confirmed by me\n(compiles, pinned suite green, demonstration fails with / passes without), then applied to /repo (or, for the\nparallel runs, to a scratch copy of /repo's HEAD named by VERIF_REPO), checked, and undone.\n\n")
     fh.write("| seed | property | own check | rules that fired | other checks that also fired |\n|---|---|---|---|---|\n")
     for r in rows:
         fh.write("| %s | %s | %s | %s | %s |\n" % r)
